@@ -76,7 +76,7 @@ def number(spec):
     return tree, nodes, name
 
 
-def harness(spec, N_objs, two_vars):
+def harness(spec, N_objs, two_vars, abandoned_first=False):
     tree, nodes, name = number(spec)
     idx = {id(n): i for i, n in enumerate(nodes)}
 
@@ -128,6 +128,12 @@ def harness(spec, N_objs, two_vars):
 
         with q:
             body(tree)
+        if abandoned_first:
+            # history: an evaluation of the same query object that was consumed only partly and then dropped
+            it = q.evaluate()
+            for _ in range(1 + ctx.choice("consumed", 2)):
+                next(it, None)
+            del it
         got = []
         unknown = 0
         for r in q.evaluate():
@@ -196,6 +202,87 @@ def harness(spec, N_objs, two_vars):
     return h, name
 
 
+def local_harness(n_ref, n_alt, n_objs):
+    """every branch condition binds a variable of its own (v_i.a == x.a) and its conclusion is built from it.  The property
+    speaks of bindings: an alternative is reached for a binding (x, v_1) for which the earlier branch did not fire, i.e. iff
+    SOME value of the earlier branch's variable fails its condition (how often the later conclusion is then repeated is
+    not stated: presence is checked, exact multiplicity only for the first member of a chain)"""
+
+    def h(ctx):
+        xs = [P(ctx.fresh_int("xa%d" % i)) for i in range(n_objs)]
+        k0 = ctx.fresh_int("k0")
+        n_br = n_ref + n_alt
+        doms = [[P(ctx.fresh_int("v%da%d" % (b + 1, i))) for i in range(1 + ctx.choice("n%d" % (b + 1), 2))] for b in range(n_br)]
+        x = let(P, xs, name="x")
+        vs = [let(P, d, name="v%d" % (b + 1)) for b, d in enumerate(doms)]
+        views = inference(V)()
+        q = an(entity(views, x.a > k0))
+        with q:
+            Add(views, inference(TYPES[0])(src=x, val=x.a))
+            if n_ref:
+                with refinement(vs[0].a == x.a):
+                    Add(views, inference(TYPES[1])(src=x, other=vs[0], val=x.a))
+                    for b in range(1, n_ref):
+                        with alternative(vs[b].a == x.a):
+                            Add(views, inference(TYPES[b + 1])(src=x, other=vs[b], val=x.a))
+            for b in range(n_ref, n_br):
+                with alternative(vs[b].a == x.a):
+                    Add(views, inference(TYPES[b + 1])(src=x, other=vs[b], val=x.a))
+        got, unknown = [], 0
+        for r in q.evaluate():
+            ti = TYPES.index(type(r)) if type(r) in TYPES else -1
+            ix = index_of(xs, r.src)
+            io = index_of(doms[ti - 1], r.other) if ti >= 1 else (0 if r.other is None else -1)
+            if ti < 0 or ix < 0 or io < 0:
+                unknown += 1
+            got.append((ix, io, ti, r.val))
+        ctx.observe([g[:3] for g in got])
+        ctx.note("nonempty", bool(got))
+        v = {"instances-known": unknown == 0}
+        per_branch = {b: [] for b in range(n_br + 1)}
+        vals = []
+
+        def present(key3):
+            return sum(1 for g in got if g[:3] == key3)
+
+        for ix, ox in enumerate(xs):
+            base = ox.a > k0
+            # Two readings of "no earlier branch fired" are compatible with the property's text when the earlier branch has a
+            # variable of its own: for SOME value of that variable its condition fails (the binding (x, v) did not fire), or
+            # for EVERY value.  Required under both: fired under the strict reading => present => fired under the weak one.
+            some_fails = [OR([NOT(EQ(o.a, ox.a)) for o in d]) for d in doms]
+            all_fail = [AND([NOT(EQ(o.a, ox.a)) for o in d]) for d in doms]
+
+            def between(strict, weak, n):
+                return AND(IMPLIES(strict, n >= 1), IMPLIES(n >= 1, weak))
+
+            weak, strict = base, base
+            for bb in range(n_ref):  # the refinement chain: reached when the base holds
+                for io, o in enumerate(doms[bb]):
+                    n = present((ix, io, bb + 1))
+                    c = EQ(o.a, ox.a)
+                    per_branch[bb + 1].append(EQ(n, B2I(AND(base, c))) if bb == 0 else between(AND(strict, c), AND(weak, c), n))
+                weak, strict = AND(weak, some_fails[bb]), AND(strict, all_fail[bb])
+            n0 = sum(1 for g in got if g[0] == ix and g[2] == 0)
+            per_branch[0].append(between(strict, weak, n0) if n_ref else EQ(n0, B2I(base)))
+            weak = strict = NOT(base)  # alternatives of the base: an else-if chain after the base
+            for bb in range(n_ref, n_br):
+                for io, o in enumerate(doms[bb]):
+                    n = present((ix, io, bb + 1))
+                    c = EQ(o.a, ox.a)
+                    per_branch[bb + 1].append(EQ(n, B2I(AND(weak, c))) if bb == n_ref else between(AND(strict, c), AND(weak, c), n))
+                weak, strict = AND(weak, some_fails[bb]), AND(strict, all_fail[bb])
+            for g in got:
+                if g[0] == ix:
+                    vals.append(EQ(g[3], ox.a))
+        for b in range(n_br + 1):
+            v["branch-%d-fires-as-written" % b] = AND(per_branch[b])
+        v["instances-built-from-their-binding"] = AND(vals) if vals else True
+        return v
+
+    return h
+
+
 def tree_list(tier):
     L = N()
     R1 = N(ref=[L])  # node with one refinement
@@ -238,6 +325,16 @@ def cases(tier, seed):
             nm = "tree %s%s" % (name, "|x,y" if two else "|x")
             cs.append(Case(nm + "|N=%d" % (Nn if not two else 2), h, key=nm, reset=eql_reset, core=True, timeout=300 if tier == "quick" else 1200,
                            max_paths=50000 if tier == "quick" else 400000, validate=1, cex_grace=10**9))
+    L_ = N()
+    # (the trees for which a finding is already listed fail in the same branches with this history; they are not repeated)
+    for t in [N(), N(ref=[L_]), N(ref=[L_, L_]), N(alts=[L_]), N(alts=[L_, L_]), N(ref=[L_], alts=[L_])]:
+        h, name = harness(t, 2, False, abandoned_first=True)
+        nm = "tree %s|x|after an abandoned partial evaluation" % name
+        cs.append(Case(nm + "|N=2", h, key=nm, reset=eql_reset, core=True, timeout=300 if tier == "quick" else 1200, max_paths=50000 if tier == "quick" else 400000, validate=1, cex_grace=10**9))
+    for (n_ref, n_alt) in [(1, 0), (2, 0), (0, 1), (0, 2), (1, 1), (2, 1)] + ([(3, 0)] if tier == "thorough" else []):
+        nm = "branches with variables of their own|refinement chain=%d,alternatives=%d" % (n_ref, n_alt)
+        cs.append(Case(nm + "|N=2", local_harness(n_ref, n_alt, 2), key=nm, reset=eql_reset, core=True, timeout=300 if tier == "quick" else 1200,
+                       max_paths=50000 if tier == "quick" else 400000, validate=1, cex_grace=10**9))
     return cs
 
 
@@ -245,7 +342,7 @@ def describe(tier):
     return dict(
         rule="rule trees written with the public with-block API: node i = condition over x.a / x.b / y.a with its own symbolic threshold k_i and its own inferred type T_i; "
         "shapes: nested refinements (depth <= 3), alternatives inside a refinement's block, alternative chains (<= 3), next_rule branches (<= 2), refinements inside "
-        "alternative / next_rule blocks and combinations (<= 6 branches); one-variable and two-variable (base binds x and y) variants. "
+        "alternative / next_rule blocks and combinations (<= 6 branches); one-variable and two-variable (base binds x and y) variants; the one-variable trees again after an evaluation of the same query object that was consumed partly (1-2 results) and dropped; plus trees whose branches each bind a variable of their own (v_i.a == x.a, 1-2 values) and build their conclusion from it. "
         "Tree notation in case names: i(R[..] A[..] X[..]) = node i with refinement chain R, alternatives A, next rules X, numbered in written order; "
         "non-trivial = >= 2 feasible paths and some instance inferred",
         bounds=dict(objects_per_domain="2 (quick) / 3 (thorough, one-variable)", values_and_thresholds="unbounded integers", branches="<= 6"),
